@@ -209,4 +209,334 @@ Proof.
      | split; [reflexivity|]; eexists; split; reflexivity ]).
 Qed.
 
+
+(* a call never changes the class of the implementation object *)
+Ltac pairs := repeat match goal with |- context [let (_, _) := ?x in _] => destruct x end.
+Lemma imp_fit_ctx (i : @imp R A G) g ds rs cx orc : is_contextual (fst (fst (imp_fit N aeqb RG i g ds rs cx orc))) = is_contextual i.
+Proof. destruct i; cbn [imp_fit]; pairs; reflexivity. Qed.
+Lemma imp_partial_fit_ctx (i : @imp R A G) g ds rs cx orc : is_contextual (fst (fst (imp_partial_fit N aeqb i g ds rs cx orc))) = is_contextual i.
+Proof. destruct i; cbn [imp_partial_fit]; pairs; reflexivity. Qed.
+Lemma imp_query_ctx (i : @imp R A G) g cx orc p : is_contextual (snd (fst (imp_query N aeqb RG i g cx orc p))) = is_contextual i.
+Proof.
+  destruct i; cbn [imp_query]; try (pairs; reflexivity).
+  destruct p; [destruct (cf_predict N aeqb RG s g (ctx_len cx)) as [[a b] c] | destruct (cf_predict_exp N aeqb RG s g (ctx_len cx)) as [[a b] c]]; reflexivity.
+Qed.
+
+Lemma step_keeps_contextual (m : mab) o : is_contextual (m_imp (fst (step N aeqb RG m o))) = is_contextual (m_imp m).
+Proof.
+  destruct o; cbn [step].
+  - destruct (fit_args_ok N m ds rs cx); [|reflexivity]. destruct (negb _); [reflexivity|].
+    pose proof (imp_fit_ctx (m_imp m) (m_rng m) ds rs cx orc) as H.
+    destruct (imp_fit N aeqb RG (m_imp m) (m_rng m) ds rs cx orc) as [[i' g'] ok]. destruct ok; exact H.
+  - destruct (fit_args_ok N m ds rs cx); [|reflexivity]. destruct (negb _); [reflexivity|].
+    destruct (m_fitted m).
+    + pose proof (imp_partial_fit_ctx (m_imp m) (m_rng m) ds rs cx orc) as H.
+      destruct (imp_partial_fit N aeqb (m_imp m) (m_rng m) ds rs cx orc) as [[i' g'] ok]. exact H.
+    + pose proof (imp_fit_ctx (m_imp m) (m_rng m) ds rs cx orc) as H.
+      destruct (imp_fit N aeqb RG (m_imp m) (m_rng m) ds rs cx orc) as [[i' g'] ok]. destruct ok; exact H.
+  - destruct (match bz with Some _ => _ | None => _ end); [reflexivity|]. destruct (amem aeqb a (m_arms m)); [reflexivity|].
+    cbn [fst m_imp]. destruct (m_imp m); reflexivity.
+  - destruct (amem aeqb a (m_arms m)); [|reflexivity]. cbn [fst m_imp]. destruct (m_imp m); reflexivity.
+  - destruct (negb _); [reflexivity|]. destruct (negb _); [reflexivity|].
+    destruct (m_imp m) eqn:Ei; try (cbn [fst]; rewrite Ei; reflexivity).
+    + destruct (cf_warm_start N aeqb s keys raw q); cbn [fst m_imp]; [reflexivity | rewrite Ei; reflexivity].
+    + destruct (lin_warm_start N aeqb s (m_rng m) keys raw q); cbn [fst m_imp]; [reflexivity | rewrite Ei; reflexivity].
+  - destruct (negb (m_fitted m)); [reflexivity|]. destruct (negb _); [reflexivity|].
+    pose proof (imp_query_ctx (m_imp m) (m_rng m) cx orc true) as H.
+    destruct (imp_query N aeqb RG (m_imp m) (m_rng m) cx orc true) as [[r i'] g']. destruct r; exact H.
+  - destruct (negb (m_fitted m)); [reflexivity|]. destruct (negb _); [reflexivity|].
+    pose proof (imp_query_ctx (m_imp m) (m_rng m) cx orc false) as H.
+    destruct (imp_query N aeqb RG (m_imp m) (m_rng m) cx orc false) as [[r i'] g']. destruct r; exact H.
+Qed.
+
+(* ---- training and online updates: the replaced bandit holds the library bandit's state ------------------- *)
+(* the bandit handed to the Simulator is a freshly constructed one (no stored history, no hash tables) *)
+Definition fresh_nbr (s : nbr) : Prop :=
+  s = nbr_init (n_kind s) (n_metric s) (n_nnprob s) (n_kf_newarm0 s) (n_arms s) (n_lp s).
+
+Theorem sim_train_refines_api (m : mab) (s : nbr) ds rs cx orc :
+  m_imp m = INbr s -> fresh_nbr s -> fit_args_ok N m ds rs cx = true ->
+  let (b, ok) := sim_train N aeqb RG m ds rs cx orc in
+  let (m1, o) := step N aeqb RG m (Fit ds rs cx orc) in
+  ok = true /\ o = ODone /\
+  exists s1 g1, b = SNbr s1 g1 [] /\ m1 = lib_of s1 g1 /\ n_lp s1 = fst (lp_binarize (n_lp s) ds rs).
+Proof.
+  intros Ei Hf Ha. unfold sim_train. rewrite Ei. rewrite <- Hf.
+  cbn [step]. rewrite Ha. rewrite Ei. cbn [train_shape_ok negb imp_fit].
+  pose proof (nbr_fit_lp s (m_rng m) ds rs (octx cx)) as Hl.
+  destruct (nbr_fit N RG s (m_rng m) ds rs (octx cx)) as [s1 g1]. cbn [fst] in Hl.
+  split; [reflexivity|]. split; [reflexivity|]. exists s1, g1. split; [reflexivity|]. split; [reflexivity | exact Hl].
+Qed.
+
+Theorem sim_update_refines_api (s : nbr) g rae ds rs cx orc :
+  fit_args_ok N (lib_of s g) ds rs (Some cx) = true -> width_ok (n_cx s) cx = true ->
+  let (b, ok) := sim_update N aeqb RG (SNbr s g rae) ds rs (Some cx) orc in
+  let (m1, o) := step N aeqb RG (lib_of s g) (PartialFit ds rs (Some cx) orc) in
+  ok = true /\ o = ODone /\ b = SNbr (nbr_partial_fit N s ds rs cx) g rae /\ m1 = lib_of (nbr_partial_fit N s ds rs cx) g.
+Proof.
+  intros Ha Hw. cbn [sim_update octx]. cbn [step]. rewrite Ha.
+  cbn [lib_of m_imp m_fitted train_shape_ok octx m_rng]. rewrite Hw. cbn [negb imp_partial_fit octx].
+  repeat split.
+Qed.
+
+(* ---- (3) the offline driver: a replaced neighbourhood bandit reports the public API's predictions ---------- *)
+Theorem offline_neighbourhood_predictions_are_the_public_api's (m : mab) (s : nbr) (train test : @batch R A) tcx qcx orcT op oe :
+  m_imp m = INbr s -> fresh_nbr s -> lp_sim_ok (n_lp s) ->
+  b_cx train = Some tcx -> b_cx test = Some qcx ->
+  fit_args_ok N m (b_ds train) (b_rs train) (b_cx train) = true ->
+  let (b, _) := sim_train N aeqb RG m (b_ds train) (b_rs train) (b_cx train) orcT in
+  let '(_, r) := sim_query1 b (b_cx test) (length (b_ds test)) O (length (b_ds test)) op oe in
+  let (m1, _) := step N aeqb RG m (Fit (b_ds train) (b_rs train) (b_cx train) orcT) in
+  let (_, o) := step N aeqb RG m1 (Predict (b_cx test) op) in
+  option_map fst r = out_arms o.
+Proof.
+  intros Ei Hf Hok Et Eq Ha.
+  pose proof (sim_train_refines_api m s (b_ds train) (b_rs train) (b_cx train) orcT Ei Hf Ha) as Ht.
+  destruct (sim_train N aeqb RG m (b_ds train) (b_rs train) (b_cx train) orcT) as [b ok].
+  destruct (step N aeqb RG m (Fit (b_ds train) (b_rs train) (b_cx train) orcT)) as [m1 o1].
+  destruct Ht as (_ & _ & s1 & g1 & -> & -> & Hl). rewrite Eq.
+  assert (Hok1 : lp_sim_ok (n_lp s1)) by (rewrite Hl; apply lp_binarize_sim_ok; exact Hok).
+  pose proof (sim_query_refines_api s1 g1 [] qcx (length (b_ds test)) O (length (b_ds test)) op oe Hok1) as Hq.
+  destruct (sim_query1 (SNbr s1 g1 []) (Some qcx) (length (b_ds test)) 0 (length (b_ds test)) op oe) as [b' r].
+  destruct (step N aeqb RG (lib_of s1 g1) (Predict (Some qcx) op)) as [m2 o2]. exact (proj1 Hq).
+Qed.
+
+(* ---- the online driver --------------------------------------------------------------------------------- *)
+(* one bandit through the online driver (the chunk's distance dictionary is irrelevant: shared_cache_sound) *)
+Fixpoint sim_online1 (b : sbandit) (rep : @report R A) (lo : nat) (batches : list (@batch R A)) (orcs : list (@borc R A))
+  : sbandit * @report R A :=
+  match batches with
+  | [] => (b, rep)
+  | bt :: rest =>
+      let n := length (b_ds bt) in
+      let o := hd (borc0 (R:=R) (A:=A)) orcs in
+      let (b1, r) := sim_query1 b (b_cx bt) n lo (lo + n) (fst (fst o)) (snd (fst o)) in
+      let (b2, ok) := sim_update N aeqb RG b1 (b_ds bt) (b_rs bt) (b_cx bt) (snd o) in
+      sim_online1 b2 (if ok then report_app rep r else None) (lo + n) rest (tl orcs)
+  end.
+
+(* the public protocol for a contextual bandit: predict, read the expectations, partial_fit *)
+Fixpoint api_online (m : mab) (batches : list (@batch R A)) (orcs : list (@borc R A)) : mab * option (list (option A) * list exps) :=
+  match batches with
+  | [] => (m, Some ([], []))
+  | bt :: rest =>
+      let o := hd (borc0 (R:=R) (A:=A)) orcs in
+      let (m1, o1) := step N aeqb RG m (Predict (b_cx bt) (fst (fst o))) in
+      let (m2, o2) := step N aeqb RG m1 (PredictExp (b_cx bt) (snd (fst o))) in
+      let (m3, o3) := step N aeqb RG m2 (PartialFit (b_ds bt) (b_rs bt) (b_cx bt) (snd o)) in
+      match out_arms o1, out_exps o2, o3 with
+      | Some p, Some e, ODone =>
+          let (m4, r) := api_online m3 rest (tl orcs) in
+          (m4, match r with Some (p', e') => Some (p ++ p', e ++ e') | None => None end)
+      | _, _, _ => (m3, None)
+      end
+  end.
+
+(* the same without reading the expectations in between *)
+Fixpoint api_online_predict_only (m : mab) (batches : list (@batch R A)) (orcs : list (@borc R A)) : mab * option (list (option A)) :=
+  match batches with
+  | [] => (m, Some [])
+  | bt :: rest =>
+      let o := hd (borc0 (R:=R) (A:=A)) orcs in
+      let (m1, o1) := step N aeqb RG m (Predict (b_cx bt) (fst (fst o))) in
+      let (m3, o3) := step N aeqb RG m1 (PartialFit (b_ds bt) (b_rs bt) (b_cx bt) (snd o)) in
+      match out_arms o1, o3 with
+      | Some p, ODone => let (m4, r) := api_online_predict_only m3 rest (tl orcs) in (m4, option_map (app p) r)
+      | _, _ => (m3, None)
+      end
+  end.
+
+Definition rep_preds (r : @report R A) : option (list (option A)) := option_map fst r.
+
+(* a contextual bandit that the simulator keeps is driven exactly through the public protocol *)
+Theorem online_kept_contextual_bandit_is_the_public_protocol (batches : list (@batch R A)) :
+  forall (m : mab) p0 e0 lo orcs, is_contextual (m_imp m) = true ->
+  let (b, rep) := sim_online1 (SMab m) (Some (p0, e0)) lo batches orcs in
+  let (m', r) := api_online m batches orcs in
+  match r with Some (p, e) => rep = Some (p0 ++ p, e0 ++ e) | None => rep = None end.
+Proof.
+  induction batches as [|bt rest IH]; intros m p0 e0 lo orcs Hc.
+  - cbn [sim_online1 api_online]. rewrite !app_nil_r. reflexivity.
+  - cbn [sim_online1 api_online]. unfold sim_query1. cbn [sim_query]. rewrite Hc.
+    pose proof (step_keeps_contextual m (Predict (b_cx bt) (fst (fst (hd borc0 orcs))))) as X1.
+    destruct (step N aeqb RG m (Predict (b_cx bt) (fst (fst (hd borc0 orcs))))) as [m1 o1]. cbn [fst] in X1.
+    pose proof (step_keeps_contextual m1 (PredictExp (b_cx bt) (snd (fst (hd borc0 orcs))))) as X2.
+    destruct (step N aeqb RG m1 (PredictExp (b_cx bt) (snd (fst (hd borc0 orcs))))) as [m2 o2]. cbn [fst] in X2.
+    cbn [sim_update]. assert (Hc2 : is_contextual (m_imp m2) = true) by congruence. rewrite Hc2.
+    pose proof (step_keeps_contextual m2 (PartialFit (b_ds bt) (b_rs bt) (b_cx bt) (snd (hd borc0 orcs)))) as X3.
+    destruct (step N aeqb RG m2 (PartialFit (b_ds bt) (b_rs bt) (b_cx bt) (snd (hd borc0 orcs)))) as [m3 o3]. cbn [fst] in X3.
+    assert (Hc3 : is_contextual (m_imp m3) = true) by congruence.
+    assert (Hnone : forall b lo' orcs', snd (sim_online1 b None lo' rest orcs') = None).
+    { clear. induction rest as [|bt' rest' IHr]; intros b lo' orcs'; [reflexivity|]. cbn [sim_online1].
+      destruct (sim_query1 b (b_cx bt') (length (b_ds bt')) lo' (lo' + length (b_ds bt')) (fst (fst (hd borc0 orcs'))) (snd (fst (hd borc0 orcs')))) as [b1 r].
+      destruct (sim_update N aeqb RG b1 (b_ds bt') (b_rs bt') (b_cx bt') (snd (hd borc0 orcs'))) as [b2 ok].
+      replace (if ok then report_app None r else None) with (@None (list (option A) * list exps)) by (destruct ok; reflexivity).
+      apply IHr. }
+    destruct (out_arms o1) as [p|].
+    2:{ destruct o3; cbn [report_app];
+          match goal with |- context [sim_online1 ?b None ?l ?r ?o] => pose proof (Hnone b l o) as X; destruct (sim_online1 b None l r o); exact X end. }
+    destruct (out_exps o2) as [e|].
+    2:{ destruct o3; cbn [report_app];
+          match goal with |- context [sim_online1 ?b None ?l ?r ?o] => pose proof (Hnone b l o) as X; destruct (sim_online1 b None l r o); exact X end. }
+    cbn [report_app].
+    destruct o3;
+      try (match goal with |- context [sim_online1 ?b None ?l ?r ?o] => pose proof (Hnone b l o) as X; destruct (sim_online1 b None l r o); exact X end).
+    specialize (IH m3 (p0 ++ p) (e0 ++ e) (lo + length (b_ds bt)) (tl orcs) Hc3).
+    destruct (sim_online1 (SMab m3) (Some (p0 ++ p, e0 ++ e)) (lo + length (b_ds bt)) rest (tl orcs)) as [b rep].
+    destruct (api_online m3 rest (tl orcs)) as [m4 r].
+    destruct r as [[p' e']|]; [|exact IH]. rewrite IH, !app_assoc. reflexivity.
+Qed.
+
+
+(* a replaced neighbourhood bandit reports, batch after batch, the predictions of the library bandit driven by
+   predict / partial_fit from the same generator *)
+Theorem online_neighbourhood_bandit_is_the_predict_update_protocol (batches : list (@batch R A)) :
+  forall (s : nbr) g rae p0 e0 lo orcs, lp_sim_ok (n_lp s) ->
+  let (b, rep) := sim_online1 (SNbr s g rae) (Some (p0, e0)) lo batches orcs in
+  let (m', r) := api_online_predict_only (lib_of s g) batches orcs in
+  match r with Some p => rep_preds rep = Some (p0 ++ p) | None => True end.
+Proof.
+  induction batches as [|bt rest IH]; intros s g rae p0 e0 lo orcs Hok.
+  - cbn [sim_online1 api_online_predict_only rep_preds option_map fst]. rewrite app_nil_r. reflexivity.
+  - cbn [sim_online1 api_online_predict_only].
+    destruct (b_cx bt) as [cx|] eqn:Ecx.
+    2:{ (* the public API rejects a query without contexts *)
+        destruct (sim_query1 (SNbr s g rae) None (length (b_ds bt)) lo (lo + length (b_ds bt)) (fst (fst (hd borc0 orcs))) (snd (fst (hd borc0 orcs)))) as [b1 r1].
+        destruct (sim_update N aeqb RG b1 (b_ds bt) (b_rs bt) None (snd (hd borc0 orcs))) as [b2 ok].
+        destruct (sim_online1 b2 (if ok then report_app (Some (p0, e0)) r1 else None) (lo + length (b_ds bt)) rest (tl orcs)) as [b rep].
+        cbn [step lib_of m_fitted negb predict_args_ok m_imp is_contextual].
+        destruct (step N aeqb RG (mkMab (INbr s) true g) (PartialFit (b_ds bt) (b_rs bt) None (snd (hd borc0 orcs)))) as [m3 o3]. exact I. }
+    pose proof (sim_query_refines_api s g rae cx (length (b_ds bt)) lo (lo + length (b_ds bt)) (fst (fst (hd borc0 orcs))) (snd (fst (hd borc0 orcs))) Hok) as Hq.
+    destruct (sim_query1 (SNbr s g rae) (Some cx) (length (b_ds bt)) lo (lo + length (b_ds bt)) (fst (fst (hd borc0 orcs))) (snd (fst (hd borc0 orcs)))) as [b1 r1].
+    destruct (step N aeqb RG (lib_of s g) (Predict (Some cx) (fst (fst (hd borc0 orcs))))) as [m1 o1].
+    destruct Hq as (Hp & rae' & -> & Hm1). rewrite Hm1. set (g1 := m_rng m1).
+    cbn [sim_update octx].
+    cbn [step]. destruct (fit_args_ok N (lib_of s g1) (b_ds bt) (b_rs bt) (Some cx)) eqn:Ha.
+    2:{ destruct (sim_online1 _ _ _ rest (tl orcs)) as [b rep]. destruct (out_arms o1); exact I. }
+    cbn [lib_of m_imp m_fitted train_shape_ok octx m_rng].
+    destruct (width_ok (n_cx s) cx) eqn:Hw; cbn [negb].
+    2:{ destruct (sim_online1 _ _ _ rest (tl orcs)) as [b rep]. destruct (out_arms o1); exact I. }
+    cbn [imp_partial_fit octx].
+    destruct (out_arms o1) as [p|] eqn:Eo.
+    2:{ destruct (sim_online1 _ _ _ rest (tl orcs)) as [b rep]. exact I. }
+    destruct r1 as [[p1 e1]|]; cbn [option_map fst] in Hp; [|discriminate]. injection Hp as ->.
+    cbn [report_app].
+    assert (Hok' : lp_sim_ok (n_lp (nbr_partial_fit N s (b_ds bt) (b_rs bt) cx))).
+    { rewrite nbr_partial_fit_lp. apply lp_binarize_sim_ok. exact Hok. }
+    specialize (IH (nbr_partial_fit N s (b_ds bt) (b_rs bt) cx) g1 rae' (p0 ++ p) (e0 ++ e1) (lo + length (b_ds bt)) (tl orcs) Hok').
+    unfold lib_of in *.
+    destruct (sim_online1 (SNbr (nbr_partial_fit N s (b_ds bt) (b_rs bt) cx) g1 rae') (Some (p0 ++ p, e0 ++ e1)) (lo + length (b_ds bt)) rest (tl orcs)) as [b rep].
+    destruct (api_online_predict_only (mkMab (INbr (nbr_partial_fit N s (b_ds bt) (b_rs bt) cx)) true g1) rest (tl orcs)) as [m4 r].
+    destruct r as [p'|]; cbn [option_map]; [|exact I]. rewrite IH, app_assoc. reflexivity.
+Qed.
+
+
+(* ---- the whole online run decomposes into independent per-bandit runs ------------------------------------ *)
+Definition step1 (br : sbandit * @report R A) (lo : nat) (bt : @batch R A) (o : @borc R A) : sbandit * @report R A :=
+  let n := length (b_ds bt) in
+  let (b1, r) := sim_query1 (fst br) (b_cx bt) n lo (lo + n) (fst (fst o)) (snd (fst o)) in
+  let (b2, ok) := sim_update N aeqb RG b1 (b_ds bt) (b_rs bt) (b_cx bt) (snd o) in
+  (b2, if ok then report_app (snd br) r else None).
+
+Fixpoint step_each (bs : list (sbandit * @report R A)) lo bt (o : list (@borc R A)) :=
+  match bs with
+  | [] => []
+  | br :: t => step1 br lo bt (hd (borc0 (R:=R) (A:=A)) o) :: step_each t lo bt (tl o)
+  end.
+
+Fixpoint per_bandit (bs : list (sbandit * @report R A)) lo batches (orcs : list (list (@borc R A))) :=
+  match bs with
+  | [] => []
+  | br :: t => sim_online1 (fst br) (snd br) lo batches (map (hd (borc0 (R:=R) (A:=A))) orcs)
+               :: per_bandit t lo batches (map (@tl _) orcs)
+  end.
+
+Lemma batch_step_each (bs : list (sbandit * @report R A)) lo bt o :
+  sim_update_all N aeqb RG
+    (report_all bs (sim_query_each (map fst bs) (b_cx bt) (length (b_ds bt)) lo (lo + length (b_ds bt)) o)) bt o
+  = step_each bs lo bt o.
+Proof.
+  revert o. induction bs as [|[b r] t IH]; intros o; [reflexivity|].
+  cbn [map fst sim_query_each report_all step_each snd]. unfold step1. cbn [fst snd].
+  destruct (sim_query1 b (b_cx bt) (length (b_ds bt)) lo (lo + length (b_ds bt)) (fst (fst (hd borc0 o))) (snd (fst (hd borc0 o)))) as [b1 r1].
+  cbn [sim_update_all snd].
+  destruct (sim_update N aeqb RG b1 (b_ds bt) (b_rs bt) (b_cx bt) (snd (hd borc0 o))) as [b2 ok].
+  f_equal. apply IH.
+Qed.
+
+Lemma per_bandit_nil (bs : list (sbandit * @report R A)) lo orcs : per_bandit bs lo [] orcs = bs.
+Proof. revert orcs. induction bs as [|[b r] t IH]; intros orcs; [reflexivity|]. cbn [per_bandit sim_online1 fst snd]. f_equal. apply IH. Qed.
+
+Lemma per_bandit_cons (bs : list (sbandit * @report R A)) lo bt rest orcs :
+  per_bandit bs lo (bt :: rest) orcs = per_bandit (step_each bs lo bt (hd [] orcs)) (lo + length (b_ds bt)) rest (tl orcs).
+Proof.
+  revert orcs. induction bs as [|[b r] t IH]; intros orcs; [reflexivity|].
+  cbn [per_bandit step_each]. f_equal.
+  - cbn [sim_online1 fst snd]. unfold step1. cbn [fst snd].
+    assert (E1 : hd borc0 (map (hd borc0) orcs) = hd (borc0 (R:=R) (A:=A)) (hd [] orcs)) by (destruct orcs; reflexivity).
+    assert (E2 : tl (map (hd (borc0 (R:=R) (A:=A))) orcs) = map (hd borc0) (tl orcs)) by (destruct orcs; reflexivity).
+    rewrite E1, E2.
+    destruct (sim_query1 b (b_cx bt) (length (b_ds bt)) lo (lo + length (b_ds bt)) (fst (fst (hd borc0 (hd [] orcs)))) (snd (fst (hd borc0 (hd [] orcs))))) as [b1 r1].
+    destruct (sim_update N aeqb RG b1 (b_ds bt) (b_rs bt) (b_cx bt) (snd (hd borc0 (hd [] orcs)))) as [b2 ok]. reflexivity.
+  - rewrite IH.
+    assert (E1 : hd [] (map (@tl (@borc R A)) orcs) = tl (hd [] orcs)) by (destruct orcs; reflexivity).
+    assert (E2 : tl (map (@tl (@borc R A)) orcs) = map (@tl _) (tl orcs)) by (destruct orcs; reflexivity).
+    rewrite E1, E2. reflexivity.
+Qed.
+
+Lemma step_each_history H (bs : list (sbandit * @report R A)) lo bt o :
+  Forall (shares_history H) (map fst bs) ->
+  Forall (shares_history (H ++ octx (b_cx bt))) (map fst (step_each bs lo bt o)).
+Proof.
+  revert o. induction bs as [|[b r] t IH]; intros o Hall; [constructor|].
+  inversion Hall as [|? ? Hb Ht]; subst. cbn [step_each map]. constructor; [|apply IH; exact Ht].
+  unfold step1. cbn [fst snd].
+  pose proof (sim_query1_history H b (b_cx bt) (length (b_ds bt)) lo (lo + length (b_ds bt)) (fst (fst (hd borc0 o))) (snd (fst (hd borc0 o))) Hb) as H1.
+  destruct (sim_query1 b (b_cx bt) (length (b_ds bt)) lo (lo + length (b_ds bt)) (fst (fst (hd borc0 o))) (snd (fst (hd borc0 o)))) as [b1 r1]. cbn [fst] in H1.
+  pose proof (sim_update_history H b1 (b_ds bt) (b_rs bt) (b_cx bt) (snd (hd borc0 o)) H1) as H2.
+  destruct (sim_update N aeqb RG b1 (b_ds bt) (b_rs bt) (b_cx bt) (snd (hd borc0 o))) as [b2 ok]. exact H2.
+Qed.
+
+(* C15: with several bandits in one simulation (also neighbourhood bandits with different metrics sharing the
+   distance dictionary), every bandit's record is the one it would get if it were simulated alone *)
+Theorem online_bandits_do_not_influence_each_other (batches : list (@batch R A)) :
+  forall (bs : list (sbandit * @report R A)) lo orcs H,
+  Forall (shares_history H) (map fst bs) ->
+  sim_online N aeqb RG bs lo batches orcs = per_bandit bs lo batches orcs.
+Proof.
+  induction batches as [|bt rest IH]; intros bs lo orcs H Hall.
+  - cbn [sim_online]. rewrite per_bandit_nil. reflexivity.
+  - cbn [sim_online]. rewrite per_bandit_cons.
+    rewrite (shared_cache_sound H (map fst bs) [] (b_cx bt) (length (b_ds bt)) lo (lo + length (b_ds bt)) (hd [] orcs) Hall (dc_valid_nil H (octx (b_cx bt)))).
+    rewrite batch_step_each.
+    apply (IH _ _ _ (H ++ octx (b_cx bt))). apply step_each_history. exact Hall.
+Qed.
+
+Theorem offline_bandits_do_not_influence_each_other (bs : list (sbandit * @report R A)) (test : @batch R A) orcs H :
+  Forall (shares_history H) (map fst bs) ->
+  sim_offline N aeqb RG bs test orcs
+  = report_all bs (sim_query_each (map fst bs) (b_cx test) (length (b_ds test)) O (length (b_ds test)) orcs).
+Proof.
+  intros Hall. unfold sim_offline.
+  rewrite (shared_cache_sound H (map fst bs) [] (b_cx test) (length (b_ds test)) O (length (b_ds test)) orcs Hall (dc_valid_nil H (octx (b_cx test)))).
+  reflexivity.
+Qed.
+
+(* after _train_bandits every replaced bandit stores the training contexts *)
+Theorem trained_bandits_share_the_history (ms : list mab) (train : @batch R A) (cx : @ctxs R) orcs :
+  b_cx train = Some cx ->
+  Forall (shares_history cx) (map fst (sim_train_all N aeqb RG ms train orcs)).
+Proof.
+  intros Ecx. unfold sim_train_all. generalize (orcs ++ repeat orc0 (length ms)) as os.
+  induction ms as [|m t IH]; intros os; [constructor|].
+  destruct os as [|o os]; [constructor|]. cbn [combine map fst snd]. constructor; [|apply IH].
+  unfold sim_train.
+  destruct (m_imp m) as [c|l|s|k|tr] eqn:Ei;
+    try (match goal with |- context [step ?a ?b ?c ?d ?e] => destruct (step a b c d e) as [m1 o1] end; exact I).
+  cbn [is_contextual]. rewrite Ecx. cbn [octx].
+  set (s0 := nbr_init _ _ _ _ _ _).
+  pose proof (history_after_fit N RG s0 (m_rng m) (b_ds train) (b_rs train) cx) as (_ & Hc & _).
+  destruct (nbr_fit N RG s0 (m_rng m) (b_ds train) (b_rs train) cx) as [s1 g1]. cbn [fst shares_history] in *. intros _. exact Hc.
+Qed.
+
 End Drivers.
